@@ -48,7 +48,7 @@ def rule_num_wrap(cx, tier):
         elif fn.qual == "koto_runtime::KNumber::pow":
             insts.append((fn, "Pow"))
     r.analysed = {"operator_impls": len(insts)}
-    r.floor("KNumber operator implementations", len(insts), 11)
+    r.floor("KNumber operator implementations", len(insts), 8)
     for fn, tr in insts:
         r.instances += 1
         r.nontrivial += 1
@@ -289,7 +289,7 @@ def rule_arith(cx, tier):
                               [f"{fn.file}:{line} {kind} operands {[_opty(fn, o) for o in ops]}"]))
             r.sample({"fn": label, "line": line, "op": kind, "guard": f"{guard[1]} {guard[2]}" if guard else "none"}, limit=25)
     r.analysed = {"functions_with_i64_checked_arithmetic": n_fn, "checked_arithmetic_sites_in_runtime": n_all}
-    r.floor("checked arithmetic sites in koto_runtime", n_all, 100)
+    r.floor("checked arithmetic sites in koto_runtime", n_all, 75)
     return r
 
 
@@ -555,7 +555,7 @@ def rule_accum(cx, tier):
                               f"enough digit sequence overflows it (a panic in debug builds)", fn.file, line))
             r.sample({"fn": cx.label(fn), "line": line, "accumulator": fn.local_name(accl), "bounded_in_loop": guarded})
     r.analysed = {"checked_multiplications": n_mul}
-    r.floor("checked multiplications scanned", n_mul, 10)
+    r.floor("checked multiplications scanned", n_mul, 7)
     return r
 
 
